@@ -477,6 +477,17 @@ func W6Special(sink Sink) {
 		emit("25" + z + "e-" + strconv.Itoa(Z))
 		emit("25" + z + ".5e-" + strconv.Itoa(Z+1))
 	}
+	// leading fraction zeros around the 19-digit mantissa window, with exponents that bring the value
+	// to the subnormal range, to 1 and to the overflow threshold (seeded change C04r8-m1: a zero
+	// mantissa with the truncated flag set and a real exponent made the upper-bound recheck return 0)
+	for _, Z := range []int{15, 16, 17, 18, 19, 20, 21, 22, 24, 40, 100, 400, 799, 800, 801} {
+		z := strings.Repeat("0", Z)
+		for _, E := range []int{Z - 330, Z - 324, Z - 323, Z - 308, Z - 290, Z - 1, Z, Z + 1, Z + 290, Z + 307, Z + 308, Z + 309, Z + 327, Z + 365} {
+			emit("0." + z + "1e" + strconv.Itoa(E))
+			emit("0." + z + "12e" + strconv.Itoa(E))
+			emit("0." + z + "17976931348623157e" + strconv.Itoa(E))
+		}
+	}
 	// exact ties followed by a zero run and one more non-zero digit, INSIDE THE FRACTION, with the
 	// last digit before / at / after the 800-digit capacity of the slow path (the digit must still
 	// break the tie; seeded change C03r6-m2 lost the truncation flag for fraction digits only)
